@@ -49,7 +49,7 @@ def project(m, v):
                 walk(ch, me)
             else:
                 tab = T.seg_rows(v, nm) if len(nm) == 3 else None
-                if tab and not ch.is_z_element():
+                if tab is not None and not ch.is_z_element():     # ([] = a segment defined without fields)
                     segs.append({"row": me, "name": nm, "table": [[r["name"], r["min"], r["max"]] for r in tab],
                                  "kids": [f.name or "?" for f in ch.children]})
     walk(m, 0)
@@ -140,7 +140,7 @@ def _chunk(args):
         foreign = [s for s in T.seg_names(v) if s not in card and len(s) == 3 and T.seg_rows(v, s) and not s.startswith("Z")]
         insts = groups.instances(st, rnd, True)[:4 if quick else 12]
         for (mode, names, conf) in insts:
-            text = "\r".join([groups.msh(v, sid)] + [groups.seg_text(n, i + 1) for i, n in enumerate(names[1:])])
+            text = "\r".join([groups.msh(v, sid)] + [groups.seg_text(n, i + 1, v) for i, n in enumerate(names[1:])])
 
             def fresh():
                 return parse_message(text, find_groups=True)
